@@ -41,7 +41,9 @@ def codeType2Portable(code, version_tuple=PYTHON_VERSION_TRIPLE):
         raise TypeError(
             f"parameter expected to be a types.CodeType type; is {type(code)} instead"
         )
-    line_table_field = "co_lnotab" if hasattr(code, "co_lnotab") else "co_linetable"
+    # From 3.10 on the real table is co_linetable; native code objects still
+    # offer co_lnotab, but as a derived (and deprecated) old-format view.
+    line_table_field = "co_linetable" if hasattr(code, "co_linetable") else "co_lnotab"
     line_table = getattr(code, line_table_field)
     if version_tuple >= (3, 0):
         if version_tuple < (3, 8):
